@@ -37,6 +37,58 @@ CHECKS = {
              "delete_event) over the universes of C06/C08/C09/C17 and a tag-shape universe; records and index entries must correspond in both "
              "directions, with expected keys computed by an independent encoder.",
         note=STORE_NOTE + "; crash/fault-interrupted histories are covered by C07's check, which evaluates the same invariant"),
+    "C01": dict(
+        level="model_checking", design_ref="DESIGN.md section 4 C01",
+        technique="exhaustive store x hostile-filter-language table through the real REQ path + statement/code skeleton comparison with a benign twin",
+        text="Every filter list of a hostile language (each member of string and non-string alphabets at every filter position, alone, with a "
+             "benign condition and in multi-filter REQs) is answered through the real websocket REQ path over a family of stores on both backends: "
+             "every returned event must be a stored one, verbatim, matching a permissive NIP-01 reading of some raw filter; the SQL text the engine "
+             "received (SQLite executed; PostgreSQL branch at text level) and the Python source compiled by the LMDB residual matcher must have "
+             "the same token/AST skeleton as the same shape with benign values, and every SQL string literal must have provenance.",
+        note=STORE_NOTE + "; PostgreSQL is covered at SQL-text level only"),
+    "C02": dict(
+        level="model_checking", design_ref="DESIGN.md section 4 C02",
+        technique="exhaustive subset-lattice x filter-language table through the real REQ path, differential against a NIP-01 reference matcher",
+        text="For every subset of a collision-rich regular-event universe (stores) and every well-formed filter list of the language (all "
+             "combinations of up to three of ids/authors/kinds/#e/#p/#t/#d values x time windows at every timestamp +-1; 2..5-filter REQs) the "
+             "answer of the real REQ path is compared with the reference: strictly-inside matches must arrive, k-filter matches at most k times.",
+        note=STORE_NOTE),
+    "C03": dict(
+        level="model_checking", design_ref="DESIGN.md section 4 C03",
+        technique="bounded-exhaustive mutation neighbourhood (all single operators, all pairs on distinct fields) of valid events on every admission path",
+        text="Every single mutation and every pair of mutations on distinct fields of six valid base events, plus re-signed structurally wrong "
+             "variants, is submitted via websocket EVENT and via direct add_event on both backends; nothing non-authentic under an independent "
+             "strict verifier may be acknowledged, stored or pushed.",
+        note=STORE_NOTE + "; configured validator list is the shipped default (is_signed)"),
+    "C04": dict(
+        level="model_checking", design_ref="DESIGN.md section 4 C04",
+        technique="exhaustive enumeration of Unicode scalar values and typed grammars through every serialisation path, parsed by an independent JSON parser",
+        text="All 1,112,064 Unicode scalar values (thorough) in content, tag value, tag name and subscription id, the tag-element type grammar, the "
+             "subscription-id grammar and every frame kind are pushed through live push, stored answer (SQL row / msgpack row -> hand-written "
+             "serializer) and HTTP /e/<id>; every frame must parse with the stdlib parser into a NIP-01 shape with the sub id verbatim and the "
+             "event field-for-field equal.",
+        note=STORE_NOTE + "; events containing U+000B/E/F, U+001A-1F, U+007F are signed with aionostr's own (rapidjson) canonicalisation, see DESIGN.md"),
+    "C11": dict(
+        level="model_checking", design_ref="DESIGN.md section 4 C11",
+        technique="metamorphic relations evaluated exhaustively on the tabulated answers of the real REQ path over the subset lattice",
+        text="ans(f,S) is tabulated for every subset S of the universe and every filter of a language closed under dropping a key and splitting "
+             "multi-values; then every lattice edge S-{x}->S with x not matching f, every child/parent and narrower/wider filter pair and every "
+             "multi-value filter vs its single values is checked. No reference answers are involved.",
+        note=STORE_NOTE),
+    "C12": dict(
+        level="model_checking", design_ref="DESIGN.md section 4 C12",
+        technique="exhaustive store x (filter, limit) table through the real REQ path with Config.max_limit=3",
+        text="With max_limit=3, every subset of the universe x base filters x limits {absent,0,1,2,3,4,10} (single and multi-filter REQs with mixed "
+             "limits) is answered by the real REQ path: events attributable to one filter never exceed min(limit,max_limit), no left-out match is "
+             "newer than a sent one, and a limit not smaller than the number of matches truncates nothing.",
+        note=STORE_NOTE),
+    "C18": dict(
+        level="model_checking", design_ref="DESIGN.md section 4 C18",
+        technique="explicit-state BFS of the real RateLimiter object under an injected clock against a sliding-window reference",
+        text="All (time step, address, command) sequences up to the depth bound over 11 rule configurations are applied to the real limiter with "
+             "state deduplication; every decision is compared with a sliding-window reference over the admitted history (with leniency exactly at "
+             "one interval), and deque sizes are bounded by the configured rates.",
+        note="real RateLimiter from /repo; perf_counter replaced by the harness clock; web.py's call sites are covered by C13/C19 scenarios"),
     "C17": dict(
         level="model_checking", design_ref="DESIGN.md section 4 C17",
         technique="exhaustive subset enumeration of a boundary universe x one real GC transition under an injected clock",
